@@ -1,3 +1,5 @@
 pub mod fops;
 pub mod mmap;
 pub mod seq;
+#[cfg(feature = "verif_hooks")]
+pub mod verif;
